@@ -184,6 +184,7 @@ theorem inv_step {b : NackBuf} (i : b.Inv) (o : BufOp) : (b.step o).1.Inv := by
     · exact inv_push i s t
   | setRtx ssrc => exact ⟨i.maxPos, i.bounded, i.nodup, i.keys⟩
   | query now seqs => exact ⟨i.maxPos, i.bounded, i.nodup, i.keys⟩
+  | nack now seqs => exact ⟨i.maxPos, i.bounded, i.nodup, i.keys⟩
 
 theorem inv_final {b : NackBuf} (i : b.Inv) (ops : List BufOp) : (bufFinal b ops).Inv := by
   induction ops generalizing b with
